@@ -166,9 +166,20 @@ def run_case(case, ctx):
                 continue
             y = kinds[kind]
             det = {"N": N, "atype": atype, "step": dt, "data": kind}
+            # how the values got into the function object does not matter: constructor, assignment to .data, or apply_to_data
+            route = ["constructor", "data-assignment", "apply_to_data"][(N + len(kind) + (0 if atype == "complete" else 1)) % 3]
+            det["values_set_by"] = route
             with ctx.lib("DFunction.get_Fourier_transform"):
                 t = qr.TimeAxis(start, N, dt, atype=atype)
-                f = qr.DFunction(t, y.copy())
+                if route == "constructor":
+                    f = qr.DFunction(t, y.copy())
+                elif route == "data-assignment":
+                    f = qr.DFunction(t, numpy.ones(N))
+                    f.data = y.copy()
+                else:
+                    f = qr.DFunction(t, numpy.ones(N))
+                    yy = y.copy()
+                    f.apply_to_data(lambda d_: d_ * yy)
                 F = f.get_Fourier_transform()
                 wdata = numpy.array(F.axis.data, dtype=float)
                 Fd = numpy.array(F.data)
